@@ -86,9 +86,13 @@ const verifUniverseSize = 2
 // verifWorld: an arbitrary database satisfying the invariant, one bucket
 // handle, nColls collections, the process-wide HLC with an arbitrary clock.
 func verifWorld(inMemory bool, nColls, nDocs int) *verifEnv {
+	return verifWorldN(inMemory, nColls, nDocs, 1)
+}
+
+func verifWorldN(inMemory bool, nColls, nDocs, nSpare int) *verifEnv {
 	hlc = &HybridLogicalClock{clock: verifBoundedClock{}, highestTime: verifU64("hlc.highest")}
 	U := verifXattrUniverse(verifUniverseSize)
-	db := verifNewDB("b0", inMemory, nColls, nDocs, 1)
+	db := verifNewDB("b0", inMemory, nColls, nDocs, nSpare)
 	env := &verifEnv{db: db, b: verifBucketOn(db, "b0", inMemory), U: U}
 	for k := 0; k < nColls; k++ {
 		env.colls = append(env.colls, env.b._initCollection(verifCollName(k), CollectionID(k+1)))
@@ -118,3 +122,5 @@ func (verifBoundedClock) getTime() uint64 {
 	verifAssume(t < 1<<62)
 	return t
 }
+
+const sgbucketRaw = sgbucket.Raw
